@@ -24,7 +24,10 @@ RULE = ("Hypothesis generates pairs (state1, state2) of ONE path on a real tempo
         "device/inode ignored and reported as 0; checksum-only -- equal iff (type, size, content) are equal: any "
         "content change is detected, a pure mtime/inode change is not. Non-trivial = the two states differ in "
         "exactly one observable dimension (content only / mtime only / inode only / size only / kind only); "
-        "distinct = sha1 of the case.")
+        "distinct = sha1 of the case. One case in 25 is a 'huge' pair instead: one sparse file (truncate) whose size "
+        "and/or modification time change only above bit 31 / bit 32 (sizes up to 12 GiB, times past 2106), same "
+        "inode, observed in default and device-agnostic mode: the observations must compare unequal. One case in "
+        "25 observes several untouched files from several threads at once and expects the serial observation.")
 ASSUMPTIONS = ["temporary files live on the tmpfs/ext4 of the sandbox; mtimes are set explicitly with utimensat, "
                "the wall clock is never consulted"]
 
@@ -56,9 +59,18 @@ def state(draw):
 def pair(draw):
     s1 = draw(state())
     how = draw(st.sampled_from(["same", "content-same-size", "content-size", "mtime", "replace-inode", "kind",
-                                "free", "untouched", "retarget"]))
+                                "free", "untouched", "retarget", "retype-same-text"]))
     if how == "retarget":
         s1["kind"] = draw(st.sampled_from(["link-file", "link-missing"]))
+    if how == "retype-same-text":
+        # a symbolic link and a regular file whose CONTENT is the link's target string (same size, same bytes,
+        # another type), in either order
+        s1["kind"] = draw(st.sampled_from(["link-file", "link-missing"]))
+        s2 = {"kind": "file", "content": {"n": len(s1["tname"]), "fill": 0, "flip": [], "text": s1["tname"]},
+              "mtime": list(s1["mtime"]), "tname": s1["tname"]}
+        if draw(st.booleans()):
+            s1, s2 = s2, s1
+        return {"s1": s1, "s2": s2, "how": how, "inplace": False}
     s2 = {"kind": s1["kind"], "content": dict(s1["content"]), "mtime": list(s1["mtime"]), "tname": s1["tname"]}
     inplace = True
     if how == "content-same-size":
@@ -100,12 +112,27 @@ def concurrent(draw):
             "repeat": draw(st.integers(1, 4))}
 
 
+@st.composite
+def huge(draw):
+    """Field widths: sizes and modification times that differ only above bit 31 / bit 32 (sparse files made with
+    truncate; same inode; the other field kept equal). Observed in default and device-agnostic mode only - the
+    checksum of 4 GiB is not worth the time."""
+    G = 1 << 32
+    n1 = draw(st.sampled_from([0, 1, 4096, (1 << 31) - 1, 1 << 31, G - 1, G, G + 1, 3 * G + 17]))
+    dn = draw(st.sampled_from([0, G, 2 * G, 1 << 31, G + 1, 1 << 33]))
+    t1 = draw(st.sampled_from([5, 1700000000, (1 << 31) - 1, 1 << 31]))
+    dt = draw(st.sampled_from([0, G, 1 << 31])) if dn else draw(st.sampled_from([G, 1 << 31, 2 * G]))
+    return {"kind": "huge", "n1": n1, "n2": n1 + dn, "t1": t1, "t2": t1 + dt, "ns": draw(st.sampled_from([0, 1, 999999999]))}
+
+
 def strategy(tier):
     # (repeating one strategy object inside one_of does not weight it: Hypothesis sees two branches)
-    return st.integers(0, 24).flatmap(lambda n: concurrent() if n == 17 else pair())
+    return st.integers(0, 24).flatmap(lambda n: concurrent() if n == 17 else huge() if n == 11 else pair())
 
 
 def data_of(c):
+    if c.get("text") is not None:
+        return c["text"].encode()
     b = bytearray([c["fill"]]) * c["n"]
     for p in c["flip"]:
         if p < len(b):
@@ -235,9 +262,39 @@ def run_concurrent(case, ctx):
         shutil.rmtree(base, ignore_errors=True)
 
 
+def run_huge(case, ctx):
+    base = ctx.fresh("c13h")
+    os.makedirs(base)
+    p = os.path.join(base, "obj")
+    try:
+        obs = []
+        for n, t in ((case["n1"], case["t1"]), (case["n2"], case["t2"])):
+            with open(p, "ab") as f:
+                f.truncate(n)
+            mt = t * 1000000000 + case["ns"]
+            os.utime(p, ns=(mt, mt))
+            st_ = os.stat(p)
+            if st_.st_size != n or st_.st_mtime_ns != mt:
+                return Outcome(None, classes=["huge-unsupported-by-filesystem"])
+            obs.append({fs: val.ask("finfo %s 0 %s" % (fs, val.hx(p.encode()))).split(" ")[0] for fs in ("local", "agnostic")})
+        dims = [d for d, ch in (("size", case["n1"] != case["n2"]), ("mtime", case["t1"] != case["t2"])) if ch]
+        for fs in ("local", "agnostic"):
+            if val.ask("infoeq %s %s" % (obs[0][fs], obs[1][fs])) == "1":
+                return Outcome("%s/getFileInfo: the two observations compare EQUAL although %s changed (size %d -> %d, "
+                               "mtime %d s -> %d s; %s -> %s)" % (fs, dims, case["n1"], case["n2"], case["t1"], case["t2"],
+                                                                  obs[0][fs], obs[1][fs]), classes=["huge"])
+        return Outcome(None, nontrivial=len(dims) == 1, classes=["huge", "huge-one-dimension:" + dims[0]] if len(dims) == 1 else ["huge"])
+    except val.Died as e:
+        return Outcome(e.msg)
+    finally:
+        shutil.rmtree(base, ignore_errors=True)
+
+
 def run_case(case, ctx, verbose=False):
     if case.get("kind") == "concurrent":
         return run_concurrent(case, ctx)
+    if case.get("kind") == "huge":
+        return run_huge(case, ctx)
     base = ctx.fresh("c13")
     os.makedirs(base)
     try:
